@@ -138,7 +138,12 @@ impl Matcher {
                         haystack,
                         needle,
                         1,
-                        memmem::find_iter(&haystack[..haystack.len() - needle.len() + len], needle),
+                        // only the leading non-letter chars can be searched case sensitively,
+                        // the remainder is compared case insensitively by the callee
+                        memmem::find_iter(
+                            &haystack[..haystack.len() - needle.len() + len],
+                            &needle[..len],
+                        ),
                     );
                     if max_score == 0 {
                         return None;
